@@ -5,8 +5,8 @@
 package c17
 
 import (
-	"encoding/json"
 	"bytes"
+	"encoding/json"
 	"fmt"
 	"sort"
 	"sync"
@@ -320,7 +320,6 @@ func execute(c *fw.Ctx, ru *Run) {
 		return map[string]any{"run": ru, "reads": reads}
 	})
 }
-
 
 func replay(c *fw.Ctx, raw json.RawMessage) {
 	var w struct {
